@@ -1130,7 +1130,10 @@ func (m *Machine) callMaybeMerge(caller *frame, fn *ssa.Function, args, env []va
 		if ex.asserted > idx {
 			m.popTo(ex, idx)
 		}
-		v, ok := m.tryMerge(caller, fn, args, env)
+		v, ok := m.trySummarize(caller, fn, args, env)
+		if !ok {
+			v, ok = m.tryMerge(caller, fn, args, env)
+		}
 		if !ok {
 			m.unsupported("replayed merge of %s could not be reproduced", fn)
 		}
@@ -1141,6 +1144,14 @@ func (m *Machine) callMaybeMerge(caller *frame, fn *ssa.Function, args, env []va
 		return copyMemo(v)
 	}
 	d := decision{kind: dMerge, nalts: 1, what: "merge " + fn.String()}
+	if v, ok := m.trySummarize(caller, fn, args, env); ok {
+		d.alt = 1
+		d.memo, d.memoOK = v, true
+		ex.decs = append(ex.decs, d)
+		m.pushLit(ex, nil)
+		ex.pos++
+		return copyMemo(v)
+	}
 	if !m.noMerge[fn] {
 		v, ok := m.tryMerge(caller, fn, args, env)
 		if ok {
@@ -1397,4 +1408,203 @@ func (m *Machine) modelSatisfiesPC(mod Model) bool {
 		}
 	}
 	return true
+}
+
+// ---- single-variable summaries by exhaustive evaluation ----
+
+// trySummarize handles calls whose scalar/string arguments all depend on one
+// 8-bit variable v: the callee is executed concretely for each of the 256
+// values of v and the results are turned into a decision-tree term over v.
+// The summary does not depend on the path condition and is cached per
+// (function, argument terms).
+func (m *Machine) trySummarize(caller *frame, fn *ssa.Function, args, env []value) (value, bool) {
+	if len(env) != 0 || m.Opts.NoSummaries {
+		return nil, false
+	}
+	var v *Term
+	var key strings.Builder
+	fmt.Fprintf(&key, "%p", fn)
+	for _, a := range args {
+		switch a := a.(type) {
+		case *Term:
+			fmt.Fprintf(&key, "|t%d", a.id)
+			if a.IsConst() {
+				continue
+			}
+			x := m.tt.single8(a)
+			if x == nil || (v != nil && v != x) {
+				return nil, false
+			}
+			v = x
+		case Str:
+			key.WriteString("|s")
+			if a.b == nil {
+				key.WriteString(a.s)
+				continue
+			}
+			for _, t := range a.b {
+				fmt.Fprintf(&key, ",%d", t.id)
+				if t.IsConst() {
+					continue
+				}
+				x := m.tt.single8(t)
+				if x == nil || (v != nil && v != x) {
+					return nil, false
+				}
+				v = x
+			}
+		default:
+			return nil, false
+		}
+	}
+	if v == nil {
+		return nil, false
+	}
+	k := key.String()
+	if r, ok := m.summaries[k]; ok {
+		if r == nil {
+			return nil, false
+		}
+		m.Stats.SummaryHits++
+		return r, true
+	}
+	nres := fn.Signature.Results().Len()
+	tabs := make([][256]uint64, nres)
+	sorts := make([]Sort, nres)
+	ok := true
+	savedSteps := m.steps
+	func() {
+		m.mergeDepth++
+		m.mergeStampBase = append(m.mergeStampBase, m.allocStamp)
+		savedEx := m.ex
+		defer func() {
+			m.mergeDepth--
+			m.mergeStampBase = m.mergeStampBase[:len(m.mergeStampBase)-1]
+			m.ex = savedEx
+			if r := recover(); r != nil {
+				switch r.(type) {
+				case pathEnd, *targetPanic:
+					ok = false // fall back to path-condition-aware merging
+				default:
+					panic(r)
+				}
+			}
+		}()
+		m.ex = nil // concrete runs must not fork; a symbolic branch would dereference nil
+		for i := 0; i < 256 && ok; i++ {
+			cargs := make([]value, len(args))
+			for j, a := range args {
+				switch a := a.(type) {
+				case *Term:
+					if a.IsConst() {
+						cargs[j] = a
+					} else {
+						cargs[j] = m.constLike(a, m.tt.valueTable(a, v)[i])
+					}
+				case Str:
+					if a.b == nil {
+						cargs[j] = a
+						continue
+					}
+					bs := make([]byte, len(a.b))
+					for k, t := range a.b {
+						if t.IsConst() {
+							bs[k] = byte(t.val)
+						} else {
+							bs[k] = byte(m.tt.valueTable(t, v)[i])
+						}
+					}
+					cargs[j] = Str{s: string(bs)}
+				}
+			}
+			r := m.callFunction(caller, fn, cargs, nil)
+			var parts []value
+			if t, isT := r.(Tuple); isT {
+				parts = t
+			} else {
+				parts = []value{r}
+			}
+			if len(parts) != nres {
+				ok = false
+				break
+			}
+			for j, p := range parts {
+				t, isTerm := p.(*Term)
+				if !isTerm || !t.IsConst() {
+					ok = false
+					break
+				}
+				if i == 0 {
+					sorts[j] = t.sort
+				}
+				tabs[j][i] = t.val
+			}
+		}
+	}()
+	m.steps = savedSteps + 64
+	if !ok {
+		m.summaries[k] = nil
+		return nil, false
+	}
+	parts := make([]value, nres)
+	for j := range parts {
+		parts[j] = m.termFromTable(v, &tabs[j], sorts[j])
+	}
+	var out value = parts[0]
+	if nres > 1 {
+		out = Tuple(parts)
+	}
+	m.summaries[k] = out
+	m.Stats.Summaries++
+	return out, true
+}
+
+// constLike makes a constant of the same sort as t.
+func (m *Machine) constLike(t *Term, v uint64) *Term {
+	switch t.sort {
+	case SortBool:
+		return m.tt.Bool(v == 1)
+	case SortInt:
+		return m.tt.Int(int64(v))
+	}
+	return m.tt.BV(t.sort, v)
+}
+
+// termFromTable builds the reduced decision tree over the bits of v whose
+// value is tab[v].
+func (m *Machine) termFromTable(v *Term, tab *[256]uint64, sort Sort) *Term {
+	var build func(lo, n int) *Term
+	build = func(lo, n int) *Term {
+		same := true
+		for i := 1; i < n; i++ {
+			if tab[lo+i] != tab[lo] {
+				same = false
+				break
+			}
+		}
+		if same {
+			if sort == SortBool {
+				return m.tt.Bool(tab[lo] == 1)
+			}
+			if sort == SortInt {
+				return m.tt.Int(int64(tab[lo]))
+			}
+			return m.tt.BV(sort, tab[lo])
+		}
+		h := n / 2
+		bit := 0
+		for x := h; x > 1; x >>= 1 {
+			bit++
+		}
+		l, r := build(lo, h), build(lo+h, h)
+		c := m.tt.Eq(m.tt.Extract(v, bit, bit), m.tt.BV(1, 1))
+		return m.tt.Ite(c, r, l)
+	}
+	t := build(0, 256)
+	if t.tab == nil && !t.IsConst() {
+		// the value table is known: cache it
+		cp := *tab
+		t.tab = &cp
+	}
+	return t
 }
